@@ -5,6 +5,7 @@
 open Model
 open Conv
 open Sexp
+type string = Stdlib.String.t
 
 type fail = { tag : string; msg : string }
 
